@@ -297,6 +297,8 @@ def iters(ctx, prog):
             ctx.violation("TAB-ITER", "%s|RangeFromIter::next" % prog.config, "RangeFromIter::next is %s, expected Some((start, {start: start+1}))" % (
                 show(ps[0].value) if ps else "?"), b.file())
         ctx.instance("TAB-ITER", "%s|RangeFromIter::next" % prog.config)
+    from .. import accessors
+    accessors.rebuild(ctx, "ISO", prog, R + "RangeFromIter::copy", nfields=1)
     # forward / reverse isomorphism
     for ty in ("RangeIter", "RangeInclusiveIter"):
         for m, twin in (("next", "next_back"), ("next_back", "next")):
